@@ -422,9 +422,13 @@ func (c *ctxConn) Read(b []byte) (n int, err error) {
 		n, err = c.conn.Read(b)
 		if err != nil {
 			if netErr, ok := err.(net.Error); ok && netErr.Timeout() && netErr.Temporary() {
+				if n > 0 {
+					// Data delivered together with the timeout must not be dropped
+					return n, nil
+				}
 				continue
 			}
-			return 0, err
+			return n, err
 		}
 
 		return n, nil
